@@ -5,9 +5,12 @@ Three layers, all evaluated on the implementation in the scratch copy of /repo:
 (a) unit level   random configurations (abstract cell tables and real CuboidPeriodicCells, caps 1..3 and unbounded,
                  charge filters incl. -0.0 charges, cell levels 1/2, units exactly on cell boundaries) and random
                  sequences of active-unit changes against the real `SingleActiveCellOccupancy`; after every call the
-                 complete public answer (`__getitem__` of every cell, `yield_surplus`, `yield_active_cells`, in order)
-                 and the private surplus dictionary (in insertion order) are compared with the Lean model
-                 `JF.Model.Occupancy`; error outcomes (KeyError / ValueError / IndexError) are compared as tokens.
+                 complete public answer (`__getitem__` of every cell, `yield_surplus`, `yield_active_cells`) and the
+                 private surplus dictionary (if present) are compared with the Lean model `JF.Model.Occupancy`
+                 — as multisets per cell: the model reproduces list / dict order too, but nothing in the property
+                 depends on it, so an order-only refactoring is not reported; error outcomes (KeyError /
+                 ValueError / IndexError, incl. the dead surplus->occupant move armed by white-box poking) are
+                 compared as tokens.
                  The property oracle (from-scratch recount from the true positions) is evaluated after every call
                  of a history that satisfies the property's premises.
 (b) boundary     the real `CellBoundaryEventHandler` on real `CuboidPeriodicCells`, both directions of motion and through
